@@ -139,8 +139,9 @@ class Engine:
         return r == z3.unsat
 
     def oblige(self, st, name, goal, detail=""):
-        self.obls.append(Obl(name, list(st.pc), goal,
-                             detail or " / ".join(st.trace[-12:])))
+        o = Obl(name, list(st.pc), goal, detail or " / ".join(st.trace[-12:]))
+        o.pre = self.entry_stack[-1] if getattr(self, "entry_stack", None) else None
+        self.obls.append(o)
 
     # ------------------------------------------------------------------ heap
     def hget(self, st, field, obj):
